@@ -87,6 +87,7 @@ type Contract struct {
 	ExitHints []*E
 	NoCall    []string             // callee names that must not be called (e.g. blocking operations)
 	Then      *Contract            // second phase of a blocking call (after the environment has run)
+	OnSpawn   []GhostAssign        // initial values of thread-local ghosts when started with `go`
 	DynCallee map[string]*Contract // contracts assumed for calls through function-typed parameters
 	Bind      map[string]string    // (dyn callee) ghost name -> result name it records
 }
@@ -109,7 +110,7 @@ func newSpecSet() *SpecSet {
 var directiveKW = map[string]bool{"pure": true, "opaque": true, "axiom": true, "lemma": true, "func": true, "extern": true,
 	"requires": true, "ensures": true, "modifies": true, "loop": true, "use": true, "names": true,
 	"expect_obligations": true, "ghost": true, "at": true, "trusted": true, "property": true, "noreturn": true,
-	"inline": true, "hint": true, "exit": true, "bounded": true, "callee": true, "shared": true, "rely": true, "guar": true, "ginv": true, "nocall": true, "then": true}
+	"inline": true, "hint": true, "exit": true, "bounded": true, "callee": true, "shared": true, "rely": true, "guar": true, "ginv": true, "nocall": true, "then": true, "onspawn": true}
 
 // readDirectives returns logical directive lines (continuations joined).
 func readDirectives(path string, prefixed bool) ([]string, []int, error) {
@@ -489,6 +490,19 @@ func (ss *SpecSet) loadSpecFile(path string, prefixed bool, pkgDir string) error
 					cur.Then.EnsSrc = append(cur.Then.EnsSrc, rest[8:])
 				default:
 					return fail(i, "then modifies|ensures ...")
+				}
+			case strings.HasPrefix(d, "onspawn "):
+				for _, as := range strings.Split(d[8:], ";") {
+					as = strings.TrimSpace(as)
+					k := strings.Index(as, " = ")
+					if as == "" || k < 0 {
+						continue
+					}
+					ve, err := mustExpr(i, strings.TrimSpace(as[k+3:]))
+					if err != nil {
+						return err
+					}
+					cur.OnSpawn = append(cur.OnSpawn, GhostAssign{Comp: strings.TrimSpace(as[:k]), Val: ve, Src: as})
 				}
 			case strings.HasPrefix(d, "nocall "):
 				for _, k := range strings.Split(d[7:], ",") {
